@@ -47,21 +47,24 @@ def gen_cancel(rng):
 
 
 def gen_progs(rng):
-    """Callback programs.  cb k may set a higher-numbered cb at any time, itself or a lower one only with a
-    positive relative delay (so every settle terminates: the clock moves only at `t` ops)."""
+    """Callback programs.  Two shapes, so that every settle terminates and the population stays bounded:
+    periodic = exactly one self re-arm with a positive relative delay (+ cancels);
+    dag      = sets of higher-numbered callbacks only (any time-stamp, also already expired) + cancels."""
     ncb = rng.randrange(1, 6)
     progs = []
     for k in range(ncb):
         hops = []
-        for _ in range(rng.choice([0, 0, 1, 1, 2, 3])):
-            r = rng.random()
-            higher = list(range(k + 1, ncb))
-            if r < 0.3 and higher:
-                hops.append(gen_hop_set(rng, higher, rng.randrange(0, 30)))
-            elif r < 0.6:
-                hops.append(gen_hop_set(rng, list(range(0, k + 1)), 0, rel_only=True, min_ms=1))
-            else:
-                hops.append(gen_cancel(rng))
+        higher = list(range(k + 1, ncb))
+        if rng.random() < 0.35:
+            hops.append(gen_hop_set(rng, [k], 0, rel_only=True, min_ms=1))
+            for _ in range(rng.choice([0, 0, 1, 2])):
+                hops.insert(rng.randrange(len(hops) + 1), gen_cancel(rng))
+        else:
+            for _ in range(rng.choice([0, 0, 1, 1, 2, 3])):
+                if higher and rng.random() < 0.55:
+                    hops.append(gen_hop_set(rng, higher, rng.randrange(0, 30)))
+                else:
+                    hops.append(gen_cancel(rng))
         progs.append(hops)
     return progs
 
@@ -144,7 +147,8 @@ def gen_race(ctx, i):
     early = rng.randrange(0, now)
     late = now + rng.randrange(10, 1000)
     pre = ["s1:A%d.0:0" % (late + 7 + k) for k in range(i % 3)]
-    return "Z 2 - t:%d.0 %s h0:A%d.0:0 s1:A%d.0:0 r0 c1:K0 t:%d.0" % (now, " ".join(pre), early, late, late + 100000)
+    return " ".join(("Z 2 - t:%d.0 %s h0:A%d.0:0 s1:A%d.0:0 r0 c1:K0 t:%d.0"
+                     % (now, " ".join(pre), early, late, late + 100000)).split())
 
 
 # ----------------------------------------------------------------------------------------------------------
